@@ -332,6 +332,11 @@ func runC01(c *Ctx) {
 	// a rejected block (and any later block) must find the parent state exactly as it was: the cached parent tries are
 	// shared structures, so the trie's copy-on-write and canonical-shape discipline is part of this property as well
 	c.Borrow("C10", runC10, map[string]string{"C10-R2": "C01-R8", "C10-R3": "C01-R8"})
+	// "one result regardless of warm or cold caches": the recent-tries cache of the state database serves only copies
+	// that still hash to the requested root (C09-R4), shared here; "a block assembled by the node's own building path is
+	// accepted by its own import path": the miner keeps the verifier's uncle bookkeeping and ancestor window (C13-R2)
+	c.Borrow("C09", runC09, map[string]string{"C09-R4": "C01-R10"})
+	c.Borrow("C13", runC13, map[string]string{"C13-R2": "C01-R11"})
 
 	c.Rule("C01-R9", "caches consulted during execution cannot make the result depend on what was imported before", func() {
 		n := c.CacheReadThroughRule("C01-R9", map[string]bool{"core/state": true})
